@@ -1,6 +1,6 @@
 /-
   Driver/C20.lean — line-protocol front end of Model/Slot.lean.
-    stream `c20`      : (c20 (T OP)…) — a sequential schedule; thread T (an actor thread in the harness) runs OP
+    stream `c20`      : (c20 STEP…), STEP ::= (T OP) [slot 0] | (T s1 OP) [slot 1] — a sequential schedule over two slots; thread T (an actor thread in the harness) runs OP
          OP ::= (init I) | obs | (emit E) | flush | enabled
          → one token per step, then the deliveries per configuration
     stream `c20_race` : (race NINIT NEMIT NOBS K) — NINIT racing initialisers, NEMIT emitters × K events, NOBS observers,
@@ -14,12 +14,18 @@ import EmitModel.Model.Slot
 namespace EmitModel.Driver.C20
 open EmitModel EmitModel.Slot
 
-def label? : Sexp → Option Label
-  | .list [_, .list [.atom "init", i]] => i.nat?.map Label.init
-  | .list [_, .atom "obs"] => some .observe
-  | .list [_, .list [.atom "emit", e]] => e.nat?.map Label.emit
-  | .list [_, .atom "flush"] => some .flush
-  | .list [_, .atom "enabled"] => some .enabled
+def op? : Sexp → Option Label
+  | .list [.atom "init", i] => i.nat?.map Label.init
+  | .atom "obs" => some .observe
+  | .list [.atom "emit", e] => e.nat?.map Label.emit
+  | .atom "flush" => some .flush
+  | .atom "enabled" => some .enabled
+  | _ => none
+
+/-- `(T OP)` addresses slot 0, `(T s1 OP)` slot 1 -/
+def label? : Sexp → Option (Bool × Label)
+  | .list [_, .atom "s1", op] => (op? op).map fun l => (true, l)
+  | .list [_, op] => (op? op).map fun l => (false, l)
   | _ => none
 
 def showOut : Out → String
@@ -36,11 +42,14 @@ def runC20 (line : String) : String :=
   | some (.list (.atom "c20" :: steps)) =>
     match steps.mapM label? with
     | some ls =>
-      let (s, outs) := run init0 ls
-      let recv := s.received.reverse.map fun (c, e) => s!"({c} {e})"
-      let ninit := (ls.filter fun l => match l with | .init _ => true | _ => false).length
-      let sig := if ls.length ≤ 1 then "trivial" else s!"inits={min ninit 3},won={s.slot.isSome},recv={min s.received.length 3}"
-      s!"{" ".intercalate (outs.map showOut)} recv=({" ".intercalate recv})\t{sig}"
+      let r := run2 (init0, init0) ls
+      let s := r.1.1
+      let outs := r.2
+      let showRecv := fun (st : State) => " ".intercalate (st.received.reverse.map fun (c, e) => s!"({c} {e})")
+      let usesS1 := ls.any (·.1)
+      let ninit := (ls.filter fun l => match l.2 with | .init _ => true | _ => false).length
+      let sig := if ls.length ≤ 1 then "trivial" else s!"inits={min ninit 3},won={s.slot.isSome},recv={min s.received.length 3},slots={if usesS1 then 2 else 1}"
+      s!"{" ".intercalate (outs.map showOut)} recv=({showRecv s}){if usesS1 then s!" recv1=({showRecv r.1.2})" else ""}\t{sig}"
     | none => "bad-op"
   | _ => "bad-op"
 
